@@ -651,13 +651,6 @@ static void gen_group (void)
             int allop = rng_chance (70);
             for (int i = 0; i < s->nstops; i++) s->sa[i] = allop || rng_chance (50) ? 0xffff : rng_chance (50) ? (uint16_t) rng_range (0xff00, 0xfffe) : (uint16_t) rng_n (65536);
             if (rng_chance (30)) gen_transform (s, pick_tcls (), q.sx, q.sy, q.w, q.h, 1);
-            if (rng_chance (12)) {
-                /* projective transform whose homogeneous coordinate is exactly 0 at the centre of one pixel of the request
-                   (radial_get_scanline clears such a pixel; linear and conical gradients paint it) */
-                for (int i = 0; i < 9; i++) s->m[i] = (i % 4 == 0) ? 65536 : 0;
-                s->setT = 1;
-                s->m[6] = -65536; s->m[7] = 0; s->m[8] = (q.sx + rng_n (q.w)) * 65536 + 32768;
-            }
         } else {
             s->kind = K_BITS; s->fmt = PIXMAN_a8r8g8b8; s->content = 2; s->w = q.w + rng_n (8); s->h = q.h + rng_n (8); s->rep = rng_n (4); s->filter = pick_filter (); s->kern = 1;
             gen_transform (s, pick_tcls (), q.sx, q.sy, q.w, q.h, 1);
